@@ -627,9 +627,9 @@ Section Decoder.
 
   Definition cbor2json (bs : list N) : list N * final * N :=
     match many (fuel_for bs) (mkst bs [] 0) with
-    | Ret _ s => (rev (outr s), FOk, alloc s)
-    | Fail k s => (rev (outr s), FErr k, alloc s)
-    | Crash k s => (rev (outr s), FRuntimePanic k, alloc s)
+    | Ret _ s => (rev' (outr s), FOk, alloc s)
+    | Fail k s => (rev' (outr s), FErr k, alloc s)
+    | Crash k s => (rev' (outr s), FRuntimePanic k, alloc s)
     | OOF => ([], FOutOfFuel, 0)
     end.
 
@@ -648,7 +648,7 @@ Section Decoder.
   Definition decodeObjectToStr (bs : list N) : list N * final :=
     if binaryFmt bs then
       match run (cbor2JsonOneObject (fuel_for bs)) (mkst bs [] 0) with
-      | Ret _ s => (rev (outr s), FOk)
+      | Ret _ s => (rev' (outr s), FOk)
       | Fail k s => ([], FErr k)              (* the panic propagates: nothing is returned *)
       | Crash k s => ([], FRuntimePanic k)
       | OOF => ([], FOutOfFuel)
